@@ -590,6 +590,17 @@ func (w *vWorld) execCertPolicy(c map[string]interface{}) (map[string]interface{
 	case "awsrole":
 		q.Path = "/aws/requestRoleCertificate/v1"
 		q.Headers = vAwsHeaders
+		if cred == "aws_ahead" || cred == "aws_behind" {
+			skew := 10 * time.Minute
+			if cred == "aws_behind" {
+				skew = -skew
+			}
+			q.Headers = map[string]string{}
+			for k, v := range vAwsHeaders {
+				q.Headers[k] = v
+			}
+			q.Headers["presigned-url"] += "&X-Amz-Algorithm=AWS4-HMAC-SHA256&X-Amz-Expires=900&X-Amz-Date=" + time.Now().Add(skew).UTC().Format("20060102T150405Z")
+		}
 		q.RawBody = []byte(keyText)
 		q.BodyType = "application/x-pem-file"
 		authAt = tBefore
